@@ -473,10 +473,21 @@ class cpr_drs {
             scatter->set_nonzeros(np);
             scatter->ptr[0] = 0;
 
+            // The pressure matrix only couples the active rows:
+            // columns outside of the active range are dropped
+            // (as in the scalar version of the constructor).
             auto App = std::make_shared<build_matrix_p>();
             App->set_size(np, np, true);
-            App->set_nonzeros(K->nnz);
-            App->ptr[0] = 0;
+
+#pragma omp parallel for
+            for (ptrdiff_t i = 0; i < static_cast<ptrdiff_t>(np); ++i) {
+                ptrdiff_t w = 0;
+                for(ptrdiff_t j = K->ptr[i], e = K->ptr[i + 1]; j < e; ++j)
+                    if (K->col[j] < static_cast<ptrdiff_t>(np)) ++w;
+                App->ptr[i+1] = w;
+            }
+
+            App->set_nonzeros(App->scan_row_sizes());
 
 #pragma omp parallel for
             for (ptrdiff_t i = 0; i < static_cast<ptrdiff_t>(np); ++i) {
@@ -491,7 +502,7 @@ class cpr_drs {
 
                 ptrdiff_t row_beg = K->ptr[i];
                 ptrdiff_t row_end = K->ptr[i + 1];
-                App->ptr[i+1] = row_end;
+                ptrdiff_t head    = App->ptr[i];
 
                 value_type_p *d = &fpp->val[i * B];
                 const double *w = prm.weights.empty() ? nullptr : &prm.weights[i * B];
@@ -503,6 +514,8 @@ class cpr_drs {
                 for(ptrdiff_t j = row_beg; j < row_end; ++j) {
                     ptrdiff_t  c = K->col[j];
                     value_type v = K->val[j];
+
+                    if (c >= static_cast<ptrdiff_t>(np)) continue;
 
                     for(int k = 0; k < B; ++k) {
                         a_top[k] += std::abs(v(0,k));
@@ -527,13 +540,15 @@ class cpr_drs {
                 }
 
                 for(ptrdiff_t j = row_beg; j < row_end; ++j) {
-                    App->col[j] = K->col[j];
+                    if (K->col[j] >= static_cast<ptrdiff_t>(np)) continue;
 
                     value_type_p app = 0;
                     for(int k = 0; k < B; ++k)
                         app += d[k] * K->val[j](k,0);
 
-                    App->val[j] = app;
+                    App->col[head] = K->col[j];
+                    App->val[head] = app;
+                    ++head;
                 }
             }
 
@@ -589,6 +604,8 @@ class cpr_drs {
                 for(ptrdiff_t j = row_beg; j < row_end; ++j) {
                     ptrdiff_t  c = K->col[j];
                     value_type v = K->val[j];
+
+                    if (c >= static_cast<ptrdiff_t>(np)) continue;
 
                     for(int k = 0; k < B; ++k) {
                         a_top[k] += std::abs(v(0,k));
